@@ -19,10 +19,10 @@ LEVEL_TEXT = ("every crash prefix and every single injected transport error (all
               "directly or after an explicit break; a failed acquisition does not leave the lock held by the failing process")
 RULE = ("case = (scenario, fault kind, position); all positions of each scenario are enumerated over the case indices; non-trivial = every case (each is a distinct "
         "crash/fault position); distinct = (scenario, kind, position, op name)")
-CASES = {"quick": 16, "thorough": 64}
+CASES = {"quick": 24, "thorough": 72}
 BUDGET_S = {"quick": 45, "thorough": 400}
 MIN_EVALS = {"quick": 100, "thorough": 400}
-FLOORS = {"crash_states": 40, "fault_runs": 40, "judge_acquire": 80}
+FLOORS = {"crash_states": 40, "fault_runs": 40, "judge_acquire": 80, "memory_states": 40}
 EXHAUSTIVE = {"quick": True, "thorough": True}
 ASSUMPTIONS = ["crash model as C04: stop between transport operations, completed ops persist, plus truncated/half info file for the non-atomic info write",
                "error model: one TransportError/PathError-class exception raised instead of performing the k-th operation"]
@@ -30,7 +30,61 @@ ASSUMPTIONS = ["crash model as C04: stop between transport operations, completed
 SCENARIOS = ["attempt", "attempt-unlock", "contended-attempt", "break", "break-then-attempt", "wait-contended", "unlock-after-break", "lockable-files"]
 
 
+class MemSite:
+    """A lock hosted on an in-memory transport (rename refuses an existing directory there, as on Windows)."""
+
+    kind = "memory"
+
+    def __init__(self, snap=None):
+        from dromedary.memory import MemoryServer
+
+        self.server = MemoryServer()
+        self.server.start_server()
+        self.url = self.server.get_url()
+        if snap:
+            t = self.transport()
+            for p in sorted(snap, key=lambda x: x.count("/")):
+                if snap[p] is None:
+                    t.mkdir(p)
+                else:
+                    t.put_bytes(p, snap[p])
+
+    def transport(self, world=None):
+        from dromedary import get_transport_from_url
+
+        return get_transport_from_url((instr.PREFIX if world is not None else "") + self.url)
+
+    def ld(self, world=None):
+        from breezy.lockdir import LockDir
+
+        return LockDir(self.transport(world), "lock")
+
+    def snapshot(self):
+        t = self.transport()
+        out = {}
+
+        def walk(d):
+            for n in t.list_dir(d or "."):
+                p = (d + "/" + n) if d else n
+                try:
+                    sub = t.list_dir(p)
+                    out[p] = None
+                    walk(p)
+                except Exception:
+                    out[p] = t.get_bytes(p)
+        walk("")
+        return out
+
+    def close(self):
+        try:
+            self.server.stop_server()
+        except Exception:
+            pass
+
+
 def _ld(url_or_path, world=None):
+    if isinstance(url_or_path, MemSite):
+        return url_or_path.ld(world)
     from breezy.lockdir import LockDir
     from dromedary import get_transport_from_path, get_transport_from_url
 
@@ -41,7 +95,8 @@ def _ld(url_or_path, world=None):
 
 def _prepare(root, scen):
     """Uninstrumented pre-state: lock dir exists; some scenarios start with a foreign holder."""
-    os.makedirs(root, exist_ok=True)
+    if not isinstance(root, MemSite):
+        os.makedirs(root, exist_ok=True)
     base = _ld(root)
     base.create()
     other = None
@@ -92,7 +147,7 @@ def _run(scen, world, root, state):
         from breezy.lockdir import LockDir
         from dromedary import get_transport_from_url
 
-        lf = LockableFiles(get_transport_from_url(world.url(root)), "lock", LockDir)
+        lf = LockableFiles(root.transport(world) if isinstance(root, MemSite) else get_transport_from_url(world.url(root)), "lock", LockDir)
         lf.lock_write()
         lf.lock_write()
         lf.unlock()
@@ -230,8 +285,53 @@ def fault_enum(ctx, scen):
     ctx.hist("fault-scenario:" + scen)
 
 
+def memory_enum(ctx, scen):
+    """Crash prefixes and faults of the scenario on an in-memory transport."""
+    from dromedary import errors as terr
+
+    site = MemSite()
+    _prepare(site, scen)
+    w = instr.World("/")
+    snaps = []
+    w.after = lambda ev: snaps.append(("after#%d:%s" % (w.mut_count.get("A", 0), ev.op), site.snapshot()))
+    snaps.append(("initial", site.snapshot()))
+    with w.active(), w.actor("A"):
+        _run(scen, w, site, {})
+    ops = [e.op for e in w.mutating_events()]
+    n = w.op_count.get("A", 0)
+    names = [e.op for e in w.log if e.actor == "A"]
+    site.close()
+    for label, snap in snaps:
+        ctx.count("crash_states")
+        ctx.count("memory_states")
+        js = MemSite(snap)
+        _judge(ctx, js, "%s/memory-crash/%s" % (scen, label), {"scenario": scen, "transport": "memory", "ops": ops, "state": label})
+        js.close()
+        ctx.note(("mem-crash", scen, label), nontrivial=True)
+    for k in range(1, n + 1):
+        site = MemSite()
+        _prepare(site, scen)
+        w = instr.World("/")
+        w.fail_any_at["A"] = (k, lambda ev: terr.TransportError("injected at %s" % ev.op))
+        raised = None
+        with w.active(), w.actor("A"):
+            try:
+                _run(scen, w, site, {})
+            except Exception as e:
+                raised = e
+        ctx.count("fault_runs")
+        ctx.count("memory_states")
+        opname = names[k - 1] if k - 1 < len(names) else "?"
+        _judge(ctx, site, "%s/memory-fault#%d:%s" % (scen, k, opname), {"scenario": scen, "transport": "memory", "position": k, "op": opname, "raised": repr(raised)[:200], "dry_ops": names})
+        site.close()
+        ctx.note(("mem-fault", scen, k), nontrivial=True)
+    ctx.hist("memory-scenario:" + scen)
+
+
 def case(ctx):
     instr.install()
+    if ctx.index >= 2 * len(SCENARIOS) and ctx.index < 3 * len(SCENARIOS):
+        return memory_enum(ctx, SCENARIOS[ctx.index % len(SCENARIOS)])
     scen = SCENARIOS[(ctx.index // 2) % len(SCENARIOS)]
     if ctx.index % 2 == 0:
         crash_enum(ctx, scen)
